@@ -1,4 +1,6 @@
 import UvModel.Lemmas.LoopRunInv
+import UvModel.Lemmas.LoopPhases2
+import UvModel.Lemmas.LoopPhases3
 /-!
   C03 — phase order and blocking rules, over the LoopModel.
 -/
@@ -107,10 +109,49 @@ theorem block_bound_metrics (sc : Script) (s : State) (t : Int) :
         { timeout := 0, realTimeout := t, userTimeout := t, reset := true, base := (flushWatchers s).tm.time, count := 48 }
        else { timeout := t, realTimeout := t, userTimeout := 0, reset := false, base := (flushWatchers s).tm.time, count := 48 }) := rfl
 
+/-- the bound as first written: only "the clock never reads below `loop->time`" is assumed.  FALSE of the model:
+    `uv__update_time` stores the clock reading modulo 2^64 (`Timer.updateTime`), so a reading ≥ 2^64 makes
+    `loop->time` jump back below `base` and `real_timeout − (time − base)` grows beyond the user's timeout
+    (`block_bound_statement_false`).  A real `uv__hrtime()/1e6` is a `uint64_t`, i.e. < 2^64: `block_bound`. -/
 def block_bound_statement : Prop :=
   ∀ (sc : Script) (s : State) (t : Int), (∀ r ∈ s.oracle, s.tm.time ≤ r.clock) →
     ∀ it tmo r, Event.poll it tmo r ∈ (ioPoll sc s t).trace → Event.poll it tmo r ∉ s.trace →
       tmo = 0 ∨ tmo = t ∨ (0 < tmo ∧ tmo ≤ t)
+
+/-- counterexample: `loop->time` = 10, timeout 5; the first `epoll_pwait` is interrupted with the clock at 2^64
+    (⇒ `loop->time` = 0), the second one is entered with timeout 5 − (0 − 10) = 15 -/
+theorem block_bound_statement_false : ¬ block_bound_statement := by
+  intro h
+  have ht : (ioPoll (fun _ _ _ => []) { tm := { time := 10 }, oracle := [{ eintr := true, clock := 2 ^ 64 }, { clock := 2 ^ 64 + 20 }] } 5).trace =
+      [.poll 0 15 { clock := 2 ^ 64 + 20 }, .poll 0 5 { eintr := true, clock := 2 ^ 64 }] := by rfl
+  have := h (fun _ _ _ => []) { tm := { time := 10 }, oracle := [{ eintr := true, clock := 2 ^ 64 }, { clock := 2 ^ 64 + 20 }] } 5
+    (by decide) 0 15 { clock := 2 ^ 64 + 20 } (by rw [ht]; exact List.mem_cons_self) (by simp)
+  omega
+
+/-- `block_bound`, corrected: every clock reading during the call is a `uint64_t` not below `loop->time` -/
+def block_bound_corrected : Prop :=
+  ∀ (sc : Script) (s : State) (t : Int), (∀ r ∈ s.oracle, s.tm.time ≤ r.clock ∧ r.clock < Timer.U64) →
+    ∀ it tmo r, Event.poll it tmo r ∈ (ioPoll sc s t).trace → Event.poll it tmo r ∉ s.trace →
+      tmo = 0 ∨ tmo = t ∨ (0 < tmo ∧ tmo ≤ t)
+
+/-- `block_bound`: whatever the callbacks dispatched inside `uv__io_poll` do (for every script, every sequence of
+    poll results), each timeout handed to `epoll_pwait` is 0, the caller's timeout, or positive and below it -/
+theorem block_bound : block_bound_corrected := by
+  intro sc s t h it tmo r hm hn
+  obtain ⟨new, ht, hp⟩ := Phases.ioPoll_ext True t sc s s (Phases.TrExt.refl _ s) (fun _ => h)
+  rw [ht] at hm
+  rcases List.mem_append.1 hm with h1 | h1
+  · exact hp _ h1 trivial
+  · exact absurd h1 hn
+
+/-- UV_METRICS_IDLE_TIME, timeout 10 at time 100, three interrupted polls (clock 100, 103, 104), then a quiet one:
+    the timeouts handed to the poller are 0, 10, 7, 3 (`real_timeout -= time − base` with `base` fixed) -/
+example :
+    let s : State := initLoop 100 true [{ eintr := true, clock := 100 }, { eintr := true, clock := 103 }, { eintr := true, clock := 104 }, { clock := 120 }]
+    (∀ r ∈ s.oracle, s.tm.time ≤ r.clock ∧ r.clock < Timer.U64) ∧
+    (ioPoll (fun _ _ _ => []) s 10).trace.reverse.filterMap (fun e => match e with | .poll _ t r => some (t, r.clock) | _ => none) =
+      [(0, 100), (10, 103), (7, 104), (3, 120)] := by
+  decide
 
 /-! ### loop watchers -/
 /-- `uv__run_idle/prepare/check` detach the list; a handle started during the phase goes to the head of the
@@ -149,6 +190,35 @@ def phase_order_statement : Prop :=
     let evs := ((iteration sc mode s).trace.take ((iteration sc mode s).trace.length - s.trace.length)).reverse
     let phases := evs.filterMap (fun e => match e with | .cb ph _ _ _ _ => some ph | _ => none)
     phases.Pairwise (fun a b => a.ctorIdx ≤ b.ctorIdx)
+
+/-- `watcher_once`: one pass of `uv__run_idle/prepare/check` invokes the callback of any handle at most once,
+    whatever the callbacks do (stop, restart, close themselves or each other) -/
+theorem watcher_once : watcher_once_statement := by
+  intro sc k s id hn
+  exact Phases.runWatchers_cnt (fun e => match e with | .cb _ kk i _ _ => kk == wCb k && i == id | _ => false)
+    (fun _ _ => rfl) (fun _ => rfl) rfl k id (fun _ _ _ _ _ => rfl) sc s hn
+
+/-- `phase_order`: within one loop iteration the callbacks come phase by phase — pending, idle, prepare, poll,
+    pending (again), check, closing, timers — for every script, mode and sequence of poll results -/
+theorem phase_order : phase_order_statement := by
+  intro sc mode s
+  obtain ⟨new, ht, hp, _⟩ := Phases.iteration_mono sc mode s
+  simp only
+  rw [ht, List.length_append, Nat.add_sub_cancel, List.take_left' rfl]
+  exact hp
+
+/-- one iteration touching seven phases: a completed udp send (pending), idle (stops itself), prepare, an async
+    wakeup (poll), check, a close callback, a due timer -/
+example :
+    let s0 := [Op.init .idle, .init .prepare, .init .check, .init .timer, .init .idle, .init .async, .init .udp,
+      .start 2 0 0, .start 3 0 0, .start 4 0 0, .start 5 0 0, .close 6, .asyncSend 7, .udpSend 8].foldl stepOp
+      (initLoop 0 false [{ batch := [(.async, 1)], clock := 5 }])
+    let sc : Script := fun key occ _ => if key = .h 2 ∧ occ = 0 then [.stop 2] else []
+    ((iteration sc .default s0).trace.take ((iteration sc .default s0).trace.length - s0.trace.length)).reverse.filterMap
+      (fun e => match e with | .cb ph k i _ _ => some (ph, k, i) | _ => none) =
+    [(.pending, .udpSend, 0), (.idle, .idle, 2), (.prepare, .prepare, 3), (.poll, .async, 7), (.check, .check, 4),
+     (.closing, .close, 6), (.timers, .timer, 5)] := by
+  decide +kernel
 
 /-- three idle handles; the first one's callback stops the second and restarts itself... every handle at most
     once, in list order (head insertion: last started first) -/
